@@ -4,10 +4,14 @@
 set -u
 P=$(realpath "$1"); shift
 cd /verif
-if ! git -C /repo diff --quiet; then echo "/repo has uncommitted changes; refusing" >&2; exit 2; fi
+# default: /repo itself. MUT_REPO=<scratch worktree> applies the patch there instead (VERIF_REPO mode), so /repo
+# stays untouched and other runs are not disturbed.
+R=${MUT_REPO:-/repo}
+if [ "$R" != /repo ]; then export VERIF_REPO=$R; git -C $R checkout -q --detach $(git -C /repo rev-parse HEAD) 2>/dev/null; fi
+if ! git -C $R diff --quiet; then echo "$R has uncommitted changes; refusing" >&2; exit 2; fi
 EVBAK=$(mktemp -d /tmp/evbak.XXXXXX); cp -a /verif/evidence/. $EVBAK/
-git -C /repo apply "$P" || { echo "patch does not apply: $P" >&2; exit 2; }
-trap 'git -C /repo checkout -- . ; cp -a $EVBAK/. /verif/evidence/; rm -rf $EVBAK; mkdir -p /tmp/mutant_replays/$(basename $P .diff); cp -r /verif/replays/*/new/* /tmp/mutant_replays/$(basename $P .diff)/ 2>/dev/null; rm -rf /verif/replays/*/new' EXIT
+git -C $R apply "$P" || { echo "patch does not apply: $P" >&2; exit 2; }
+trap 'git -C $R checkout -- . ; cp -a $EVBAK/. /verif/evidence/; rm -rf $EVBAK; mkdir -p /tmp/mutant_replays/$(basename $P .diff); cp -r /verif/replays/*/new/* /tmp/mutant_replays/$(basename $P .diff)/ 2>/dev/null; rm -rf /verif/replays/*/new' EXIT
 for id in "$@"; do
   t0=$(date +%s)
   out=$(./check "$id" --tier "${TIER:-quick}" 2>&1); rc=$?
